@@ -4,7 +4,7 @@ import json
 
 TEXT = {
  "C01": ("abstract interpretation of the compile pipeline on pattern skeletons + regex-template obligations (Lemma A/B)",
-         "Static proof of the listed structural obligations on the current source: every mnemonic/operand regex the pipeline can emit for a sequence pattern (4 flag settings) has the ADDR+'::' frame, the user's name verbatim in a separator-free window (or exact), one comma-terminated field per operand in order, and a tail to '|'; from these the iff of the property follows by the composition lemma (DESIGN 3). Flag wiring YAML key -> stored flag -> regex mode is decided by interpretation of the loader."),
+         "Static proof of the listed structural obligations on the current source: every mnemonic/operand regex the pipeline can emit for a sequence pattern (4 flag settings) has the ADDR+'::' frame, the user's name verbatim in a separator-free window (or exact), one comma-terminated field per operand in order, and a tail to '|'; from these the iff of the property follows by the composition lemma (DESIGN 3). Flag wiring YAML key -> stored flag -> regex mode is decided by interpretation of the loader. Plus: the rule loaded from its file compiles under its own flags from the constructor on and after any earlier rule; the searched stream is the whole listing read in text mode; operand fields carry no comma."),
  "C02": ("abstract interpretation on skeletons carrying `times` in both spellings + quantifier-shape obligations",
          "Every node that carries times compiles to exactly one non-capturing group quantified with the written bounds whose body is the un-repeated occurrence (judged by the same shape rules); (1,1) adds nothing; the bounds written in either YAML spelling reach the node unchanged."),
  "C03": ("abstract interpretation on operator skeletons (3 contexts, nested) + regex-AST equations per operator",
@@ -12,35 +12,35 @@ TEXT = {
  "C04": ("abstract interpretation on $not skeletons + look-ahead/unit shape obligations",
          "(?!ARG) followed by exactly one aligned unit (record or field), quantifier around both, argument typed in the surrounding context."),
  "C05": ("abstract interpretation on capture skeletons + capture census, numbering and terminator obligations; register regex constants evaluated over the README's x86 table",
-         "Capturing groups only in first occurrences; registration order == emission order == group number; back-references carry their own name's number and a mandatory terminator; register-family regexes accept exactly the family at the selected width."),
+         "Capturing groups only in first occurrences; registration order == emission order == group number; back-references carry their own name's number and a mandatory terminator; register-family regexes accept exactly the family at the selected width. Plus: group numbers do not depend on rules compiled earlier in the process."),
  "C06": ("sibling cross-check: compile pipeline interpreted on $deref skeletons vs the operand normaliser's decision table, both against one frozen glue/slot layout",
-         "Compiler template == '[' %?a ('+' %?b '*' (0x)?c)? ('+' (0x)?k)? ']' ',' for all presence patterns; normaliser rows == [s0+s1*s2(+outside)] / [inner(+outside)] built from the pieces of the parenthesised part."),
+         "Compiler template == '[' %?a ('+' %?b '*' (0x)?c)? ('+' (0x)?k)? ']' ',' for all presence patterns; normaliser rows == [s0+s1*s2(+outside)] / [inner(+outside)] built from the pieces of the parenthesised part. Plus: the operand splitter never cuts inside parentheses and nothing is added to the normalised operand list."),
  "C07": ("regex-template obligations (Lemma B frame, separator discipline) on every node template + lint of the shipped macro file + def-use of the reported address",
-         "Every instruction-level element starts with ADDR+'::' and ends by consuming '|'; every class/dot excludes the separators of its level; the address is split('::')[0] of the same group(0)."),
+         "Every instruction-level element starts with ADDR+'::' and ends by consuming '|'; every class/dot excludes the separators of its level; the address is split('::')[0] of the same group(0). Plus: one search from the start of the whole stream; every record's address field is the line's hex address group and its operands come only from the operand group; the parser and the consumer never swallow an exception (no instruction silently dropped)."),
  "C09": ("NARROW: abstract interpretation of the operand normaliser as a decision table over operand classes + shape of the split regex",
-         "For every feasible combination of the normaliser's syntactic tests the output template (literals + slot provenance) equals the row of the property; parse_operands is a 1:1 ordered map; the splitter is ',' not followed by [^(]*')'. Not decided: classification of arbitrary objdump operands."),
+         "For every feasible combination of the normaliser's syntactic tests the output template (literals + slot provenance) equals the row of the property; parse_operands is a 1:1 ordered map; the splitter is ',' not followed by [^(]*')'. Not decided: classification of arbitrary objdump operands. Plus: the lines reach the line parser as written and the operand list is the normalised split of the operand group only."),
  "C10": ("NARROW: writer template by abstract interpretation + field alphabets of the line regexes + comma-freeness of normaliser outputs",
-         "Record == addr '::' mnemonic ',' join(',', operands) + ',|', stream == in-order join; address class is hex, mnemonic class excludes ',' and blank, parenthesised commas never survive into a field. Not decided: '|' / '::' inside fields, injectivity in general."),
+         "Record == addr '::' mnemonic ',' join(',', operands) + ',|', stream == in-order join; address class is hex, mnemonic class excludes ',' and blank, parenthesised commas never survive into a field. Not decided: '|' / '::' inside fields, injectivity in general. Plus: field kinds at every Instruction construction site; no half-parsed records (no swallowed exceptions)."),
  "C11": ("abstract interpretation of CompleteConsumer/MatchedObserver on an abstract listing (all paths) + API-usage rules",
          "One regex.finditer / regex.search call with exactly pattern, the whole in-order stream, timeout; every element forwarded once as group(0); no early exit; observer appends. Scan semantics are regex's (trusted)."),
  "C12": ("abstract interpretation of perform_matching for all mode combinations (all paths) + whole-program who-writes census",
-         "bool == (a hit was reported), list == reported hits, string == searched stream, for every combination; address-only is a projection of the same hit; modes do not reach compilation; one observer per call."),
+         "bool == (a hit was reported), list == reported hits, string == searched stream, for every combination; address-only is a projection of the same hit; modes do not reach compilation; one observer per call. Plus: the search/finditer pair with group(0) reporting; observer options cannot drop a report."),
  "C13": ("abstract interpretation of the macro expander on rule skeletons (shapes concrete, names/bodies abstract), generators evaluated eagerly",
-         "Expanded tree structurally identical to the manually inlined tree for every supported use form on every path; parameterised definitions unaltered; substitution on a fresh deep copy with arguments from the call node; extra files loaded afresh and prepended in order."),
+         "Expanded tree structurally identical to the manually inlined tree for every supported use form on every path; parameterised definitions unaltered; substitution on a fresh deep copy with arguments from the call node; extra files loaded afresh and prepended in order. Plus: uses carrying times, names with embedded macros in every position, falsy arguments, formal names occurring inside other names."),
  "C14": ("whole-program census of process-global mutable state + abstract interpretation of operation sequences in one run compared with the fresh run",
-         "Every piece of global state is in the reviewed table; every config key read is reloaded on every path; for 6x3 operation sequences the successor's config reads, observers, argv, regex calls and result equal the fresh run."),
+         "Every piece of global state is in the reviewed table; every config key read is reloaded on every path; for 6x3 operation sequences the successor's config reads, observers, argv, regex calls and result equal the fresh run. Plus: a rule whose config is rejected or tolerated leaves nothing of the previous rule's config in force."),
  "C15": ("abstract interpretation of both input routes; argv and data-flow obligations",
-         "Exactly one subprocess.run(['objdump','-d','-M','att',('-j',s)*,file], capture_output, text, check); its stdout, unmodified, reaches the same parser/consumer as the assembly route's file text. objdump trusted."),
+         "Exactly one subprocess.run(['objdump','-d','-M','att',('-j',s)*,file], capture_output, text, check); its stdout, unmodified, reaches the same parser/consumer as the assembly route's file text. objdump trusted. Plus: section names reach -j verbatim; for every accepted style the -M argument is not an Intel-syntax selector."),
  "C16": ("information-flow argument: abstract interpretation of LineParser.parse on an opaque line + shape rules on the line regexes",
-         "Only literals and capture groups of the line regexes reach an Instruction; groups see address digits / blank-free token / token without blank and '#'; presentation parts optional and unbounded; only Instruction results are forwarded."),
+         "Only literals and capture groups of the line regexes reach an Instruction; groups see address digits / blank-free token / token without blank and '#'; presentation parts optional and unbounded; only Instruction results are forwarded. Plus: byte-only continuation lines (216 spacing variants, constant regexes on constant lines) never parse as instructions; the text is unmodified under every config key."),
  "C17": ("error-discipline rules: syntactic handler/log rules + all-paths abstract interpretation under modelled faults and ill-formed rule shapes",
-         "No path on which a fault occurred returns a verdict; accepted times bounds are validated on every returning path; ill-formed shapes and config values raise on every path; main() propagates."),
+         "No path on which a fault occurred returns a verdict; accepted times bounds are validated on every returning path; ill-formed shapes and config values raise on every path; main() propagates. Plus: every returning path has parsed the input's text and searched the stream."),
  "C18": ("abstract interpretation of ValidAddrObserver/ValidAddrRange/HexType on abstract instructions and bounds (all paths) + installation rule via the match flow",
          "Rewrite only under first-operand & branch mnemonic & no '*' & int(min,16)<=int(T,16)<=int(max,16) (one normaliser, optional 0x); otherwise the same object; tag shape; installed iff configured; own range on every call."),
  "C19": ("abstract interpretation of the expander on skeletons that place an abstract undefined reference at every position",
-         "Every path ends in an error naming the leftover; no returning path keeps a string starting with '@'; macro names validated first; a later compilation is judged on its own definitions."),
+         "Every path ends in an error naming the leftover; no returning path keeps a string starting with '@'; macro names validated first; a later compilation is judged on its own definitions. Plus: cyclic and self-referential definitions; extra macro files are considered whatever the rule's own macros section looks like."),
  "C20": ("abstract interpretation of parse_args_from_console (argparse spec read from the calls) and main() on an opaque Namespace + log-line rules",
-         "argparse spec as documented; every MatchConfig field is the corresponding option unmodified; the library entry point is called once; failures propagate; log lines co-located with the data they report."),
+         "argparse spec as documented; every MatchConfig field is the corresponding option unmodified; the library entry point is called once; failures propagate; log lines co-located with the data they report. Plus: the boolean-mode operation main() runs searches and reports exactly like the list-mode operation; the RESULT line equals the returned verdict on every path."),
 }
 NOTE = ("Trusted base: the regex engine's documented semantics, objdump, the stream hypothesis H (C10) for C01-C07, and the "
         "checker itself: a 1.2 kLOC abstract interpreter for the repository's Python subset (fail-closed: an unsupported "
